@@ -28,6 +28,9 @@ type PropSpec struct {
 	// StandIns: driver files (under replay_drivers/) to run as bounded stand-ins in
 	// the QUICK tier too, for functions this property uses through assumed contracts
 	StandIns        []string   `json:"standins,omitempty"`
+	// Scans: repository-wide syntactic scans that belong to this property
+	// ("errorf-single-w")
+	Scans           []string   `json:"scans,omitempty"`
 	ID              string     `json:"id"`
 	Packages        []string   `json:"packages"`
 	Preludes        []string   `json:"preludes"`
@@ -342,6 +345,23 @@ func cmdCheck(args []string) {
 	for _, b := range ownsBad {
 		fails = append(fails, &failure{Name: "owns#" + sanitize(b), Reason: b})
 	}
+	// repository-wide syntactic scans
+	var scansEv []map[string]any
+	for _, sc := range ps.Scans {
+		switch sc {
+		case "errorf-single-w":
+			n, bad := scanErrorfSingleW(repo)
+			scansEv = append(scansEv, map[string]any{"scan": sc, "sites_checked": n, "violations": len(bad),
+				"what": "every cerrors.Errorf (= xerrors.Errorf) format literal under pkg/ and cmd/ has at most one %w verb"})
+			for _, b := range bad {
+				site := b[:strings.Index(b, ": ")]
+				fails = append(fails, &failure{Name: "errorf#" + site, Reason: b})
+			}
+		default:
+			fmt.Fprintf(os.Stderr, "gocv: props/%s.json names unknown scan %q\n", prop, sc)
+			os.Exit(2)
+		}
+	}
 	// discharge: lemma blocks and function obligations
 	solveLemmas(lemmaGen, recPre, filepath.Join(outDir, "lemmas"), timeout)
 	// only solve selected obligations (plus covers)
@@ -555,6 +575,7 @@ func cmdCheck(args []string) {
 		"residual_not_decided": ps.Residual,
 		"contract_files": e.contractFiles,
 		"bounded_stand_ins": standIns,
+		"scans": scansEv,
 		"ownership_scans": ownsChecked,
 	}
 	ev := map[string]any{
